@@ -1,4 +1,5 @@
 import GenjaxModel.Proofs.Adev
+import GenjaxModel.Proofs.ViElbo  -- (c17elbo block at the end of this file)
 /-!
 # C17 — the ELBO objective is unbiased, tight at the posterior, and ascended by VI
 
@@ -30,5 +31,295 @@ theorem C17_optimiser_history {K : Type} [Field K] (grad : Nat → K → K) (lr 
 theorem C17_optimiser_step {K : Type} [Field K] (grad : Nat → K → K) (lr : K) (n : Nat) (p0 : K) :
     iter grad lr (n + 1) p0 = iter grad lr n p0 + lr * grad n (iter grad lr n p0) :=
   iter_step grad lr n p0
+
+end Genjax.Vi
+
+/-! # ===================== c17elbo: THE OBJECTIVE IN TERMS OF THE GFI MODEL =====================
+  (appended block; model `Model/ViElbo.lean`, proofs `Proofs/ViElbo.lean`)
+
+  `elbo_factory` (vi.py:50-89) evaluates, per draw,
+      `tr = family.simulate(constraint, *params)`,
+      `target.assess(target.merge(constraint, tr.get_choices())[0], *target_args)[0] + tr.get_score()`.
+  `elboDraw P p pargs xobs t` is that expression on the GFI model for a trace `t` of the family `q`
+  (log domain, weights in any additive commutative group); `elboRatio pd p pargs q qargs xobs t` is the
+  same draw in the LINEAR domain, the ratio `p(x,z)/q(z)` of the masses `assessP` computes.  The
+  family's draws are `q.simD pd P qargs` (C01: the law of `simulate`); `E d φ` is the exact expectation
+  `Σ prob·φ(outcome)`, `optK φ` extends `φ` by 0 to the outcome "raised".  `Z` is any list of distinct
+  choice maps of the family's static shape containing every choice map the family can produce
+  (`coversB` checks that by evaluation). -/
+namespace Genjax.Vi
+open Genjax Smc Smc.FinDist
+
+section C17Elbo
+
+/-- **the value of one draw**: for every target `p`, family `q`, constraint `xobs` and coherent trace
+    `t` of the family (every trace `simulate` builds is coherent: `C01_simulate_coherent`) the
+    objective is `assess(merge(constraint, z)).1 + score(t)`, and - `score(t) = −assess_q(z).1` by
+    C01 - equals `log p(x,z) − log q(z)`. -/
+theorem C17_elbo_value {R : Type} [AddCommGroup R] (P : Prims R) (p : GF) (pargs : List Val) (q : GF)
+    (qargs : List Val) (xobs : CM) (t : Tr R) (hcoh : q.Coh P qargs t) (z : CM)
+    (hz : t.choices = some z) (m : CM) (hm : CM.mergeNoCheck xobs z = some m) (lp : R) (r : Val)
+    (hp : p.assess P m pargs = some (lp, r)) :
+    elboDraw P p pargs xobs t = some (lp + t.score) ∧
+    ∃ lq, q.assess P z qargs = some (lq, t.retval) ∧ t.score = -lq ∧ lp + t.score = lp - lq :=
+  elbo_value P p pargs q qargs xobs t hcoh z hz m hm lp r hp
+
+/-- … and whenever the objective is defined at all it has that form (nothing else makes it defined) -/
+theorem C17_elbo_value_of_some {R : Type} [AddCommGroup R] (P : Prims R) (p : GF) (pargs : List Val)
+    (q : GF) (qargs : List Val) (xobs : CM) (t : Tr R) (hcoh : q.Coh P qargs t) (v : R)
+    (h : elboDraw P p pargs xobs t = some v) :
+    ∃ z m lp r lq, t.choices = some z ∧ CM.mergeNoCheck xobs z = some m ∧
+      p.assess P m pargs = some (lp, r) ∧ q.assess P z qargs = some (lq, t.retval) ∧ v = lp - lq :=
+  elbo_value_of_some P p pargs q qargs xobs t hcoh v h
+
+/-- the body of `elbo` run end to end with the probe sampler (`elboSim` = simulate, then `elboDraw`) -/
+theorem C17_elbo_value_simulate {R : Type} [AddCommGroup R] (P : Prims R) (p : GF) (pargs : List Val)
+    (q : GF) (qargs : List Val) (xobs : CM) (t : Tr R) (ht : q.simulate P qargs = some t) (z : CM)
+    (hz : t.choices = some z) (m : CM) (hm : CM.mergeNoCheck xobs z = some m) (lp : R) (r : Val)
+    (hp : p.assess P m pargs = some (lp, r)) :
+    elboSim P p pargs q qargs xobs = some (lp + t.score) ∧
+    ∃ lq, q.assess P z qargs = some (lq, t.retval) ∧ lp + t.score = lp - lq :=
+  elbo_value_simulate P p pargs q qargs xobs t ht z hz m hm lp r hp
+
+/-- non-vacuity: the probe primitives, target `elboExP`-shaped over `ratPrims`-like integer weights
+    (`lawExP`), family `tightExQ`; hypotheses and conclusion computed -/
+example : ∃ t z m lp r, tightExQ.simulate lawExP [.num (1/3)] = some t ∧ t.choices = some z ∧
+    CM.mergeNoCheck elboExObs z = some m ∧ tightExP.assess lawExP m [] = some (lp, r) ∧
+    elboSim lawExP tightExP [] tightExQ [.num (1/3)] elboExObs = some (lp + t.score) :=
+  ⟨_, _, _, _, _, rfl, rfl, rfl, rfl, rfl⟩
+
+/-! ### merge precedence -/
+
+/-- **merge precedence, address by address**: whatever `Fn.merge(a, b)` (no check) returns holds at
+    every address `k` exactly `mergeAt (a at k) (b at k)`: two dicts merge recursively, otherwise the
+    SECOND side - in `elbo` the family's draw - wins, keys of one side only are kept. -/
+theorem C17_elbo_merge_precedence (a b m : CML) (h : CML.mergeNoCheck a b = some m) (k : String) :
+    m.find? k = mergeAt (a.find? k) (b.find? k) := CML.find?_mergeNoCheck a b m h k
+
+/-- `merge(constraint, z)` of two dicts never raises -/
+theorem C17_elbo_merge_total (xs zs : CML) :
+    ∃ m, CM.mergeNoCheck (.node xs) (.node zs) = some (.node m) := merge_node_total xs zs
+
+/-- **disjoint address sets** (observed addresses in the constraint, latent ones in the family): the
+    merged map agrees with the constraint on every observed address and with `z` on every other one -/
+theorem C17_elbo_merge_disjoint (xs zs : CML)
+    (hdis : ∀ k, (xs.find? k).isSome → zs.find? k = none) :
+    ∃ m, CM.mergeNoCheck (.node xs) (.node zs) = some (.node m) ∧
+      (∀ k, (xs.find? k).isSome → m.find? k = xs.find? k) ∧
+      (∀ k, xs.find? k = none → m.find? k = zs.find? k) := merge_disjoint xs zs hdis
+
+/-- **shared address**: where both sides carry a value (not both dicts) the family's draw replaces
+    the observation (`x_` takes precedence in `merge(x, x_)`) -/
+theorem C17_elbo_merge_shared (xs zs m : CML) (h : CML.mergeNoCheck xs zs = some m) (k : String)
+    (c c' : CM) (hx : xs.find? k = some c) (hz : zs.find? k = some c')
+    (hnn : ∀ u v, c = .node u → c' = .node v → False) : m.find? k = some c' :=
+  merge_shared_second_wins xs zs m h k c c' hx hz hnn
+
+/-- **the assess call sees exactly (x, z)**: with disjoint address sets, `assess` of an `Fn` target on
+    the merged map (log and linear domain) is `assess` on the constraint followed by the family's
+    choices - the Assess handler reads the map only through address lookups -/
+theorem C17_elbo_assess_sees_xz {R : Type} [Zero R] [Add R] (P : Prims R) {K : Type} [One K] [Mul K]
+    (pd : PD K) (xs zs : CML) (hdis : ∀ k, (xs.find? k).isSome → zs.find? k = none) :
+    ∃ m, CM.mergeNoCheck (.node xs) (.node zs) = some (.node m) ∧
+      ∀ (body : Body) (pargs : List Val),
+        (GF.fn body).assess P (.node m) pargs = (GF.fn body).assess P (.node (CML.app xs zs)) pargs ∧
+        (GF.fn body).assessP pd (.node m) pargs
+          = (GF.fn body).assessP pd (.node (CML.app xs zs)) pargs :=
+  merge_assess_sees_xz P pd xs zs hdis
+
+/-- non-vacuity: disjoint (`{y}` against `{b, z}`), and a shared address (`{y: 1}` against
+    `{b: 0, y: 0}`: the merged map holds the family's `y = 0`) -/
+example : (∀ k, ((CML.cons "y" (.leaf (.num 1)) .nil).find? k).isSome →
+      (CML.cons "b" (.leaf (.num 0)) (.cons "z" (.leaf (.num 2)) .nil)).find? k = none) ∧
+    CML.mergeNoCheck (.cons "y" (.leaf (.num 1)) .nil)
+        (.cons "b" (.leaf (.num 0)) (.cons "y" (.leaf (.num 0)) .nil))
+      = some (.cons "y" (.leaf (.num 0)) (.cons "b" (.leaf (.num 0)) .nil)) := by
+  refine ⟨?_, rfl⟩
+  intro k hk
+  have : k = "y" := by
+    by_contra hne
+    simp [CML.find?, hne] at hk
+  subst this
+  decide
+
+/-! ### expectations over the family's draws -/
+
+variable {K : Type} [Field K] {R : Type} [AddCommGroup R] (pd : PD K) (P : Prims R)
+
+/-- **law of the per-draw objective**: the expectation, over the family's `simulate`, of ANY function
+    `g` of the linear-domain ratio is the finite sum `Σ_{z∈Z} q(z) · g(p(x,z)/q(z))`, `q(z)` the mass
+    `q.assessP` computes (through `C01_simulate_law`). -/
+theorem C17_elbo_expectation_fn (hpd : pd.WF) (hnorm : pd.Normalised) (p : GF) (pargs : List Val)
+    (q : GF) (hc : q.condOK = true) (qargs : List Val) (xobs : CM) (Z : List CM) (hnd : Z.Nodup)
+    (hcov : ∀ t, some t ∈ supp (q.simD pd P qargs) → ∃ z ∈ Z, t.choices = some z)
+    (hshape : ∀ z ∈ Z, q.skel = some z.skel) (g : Option K → K) :
+    E (q.simD pd P qargs) (optK fun t => g (elboRatio pd p pargs q qargs xobs t))
+      = sumK (Z.map fun z =>
+          pmassOf (q.assessP pd z qargs) * g (elboRatioZ pd p pargs q qargs xobs z)) :=
+  elbo_E_fn pd P hpd hnorm p pargs q hc qargs xobs Z hnd hcov hshape g
+
+/-- **unbiasedness in the linear domain (importance-sampling identity)**:
+    `E_{z~q}[p(x,z)/q(z)] = Σ_{z∈Z} p(x,z)` - the evidence - whenever the family dominates the target
+    on `Z` (`q(z) = 0 → p(x,z) = 0`).  The family: no address traced twice, Conds with branches of
+    equal shape.  Where the target's `merge`/`assess` raises both sides count 0. -/
+theorem C17_elbo_unbiased (hpd : pd.WF) (hnorm : pd.Normalised) (p : GF) (pargs : List Val) (q : GF)
+    (hn : q.noCollide = true) (hc : q.condOK = true) (qargs : List Val) (xobs : CM) (Z : List CM)
+    (hnd : Z.Nodup)
+    (hcov : ∀ t, some t ∈ supp (q.simD pd P qargs) → ∃ z ∈ Z, t.choices = some z)
+    (hshape : ∀ z ∈ Z, q.skel = some z.skel)
+    (hac : ∀ z ∈ Z, pmassOf (q.assessP pd z qargs) = 0 →
+      (elboJoint pd p pargs xobs z).getD 0 = 0) :
+    E (q.simD pd P qargs) (optK fun t => (elboRatio pd p pargs q qargs xobs t).getD 0)
+      = sumK (Z.map fun z => (elboJoint pd p pargs xobs z).getD 0) :=
+  elbo_unbiased' pd P hpd hnorm p pargs q hn hc qargs xobs Z hnd hcov hshape hac
+
+/-- **the log-domain expectation** `E_q[log p(x,z) − log q(z)] = Σ_{z∈Z} q(z)(log p(x,z) − log q(z))`
+    for an abstract `log` with `log (a/b) = log a − log b` off zero: the definition of the expectation
+    of a function of a draw, plus the law of `simulate`.  Guards: joint and family mass defined and
+    non-zero on `Z`. -/
+theorem C17_elbo_expect_log (log : K → K)
+    (hlog : ∀ a b, a ≠ 0 → b ≠ 0 → log (a / b) = log a - log b)
+    (hpd : pd.WF) (hnorm : pd.Normalised) (p : GF) (pargs : List Val) (q : GF)
+    (hc : q.condOK = true) (qargs : List Val) (xobs : CM) (Z : List CM) (hnd : Z.Nodup)
+    (hcov : ∀ t, some t ∈ supp (q.simD pd P qargs) → ∃ z ∈ Z, t.choices = some z)
+    (hshape : ∀ z ∈ Z, q.skel = some z.skel)
+    (hJ : ∀ z ∈ Z, ∃ pp, elboJoint pd p pargs xobs z = some pp ∧ pp ≠ 0)
+    (hQ : ∀ z ∈ Z, ∃ qq r, q.assessP pd z qargs = some (qq, r) ∧ qq ≠ 0) :
+    E (q.simD pd P qargs) (optK fun t => (elboRatio pd p pargs q qargs xobs t).elim 0 log)
+      = sumK (Z.map fun z => pmassOf (q.assessP pd z qargs) *
+          (log ((elboJoint pd p pargs xobs z).getD 0) - log (pmassOf (q.assessP pd z qargs)))) :=
+  elbo_expect_log pd P log hlog hpd hnorm p pargs q hc qargs xobs Z hnd hcov hshape hJ hQ
+
+/-- the masses the family assigns to `Z` sum to 1 -/
+theorem C17_elbo_family_mass_one (hpd : pd.WF) (hnorm : pd.Normalised) (q : GF)
+    (hn : q.noCollide = true) (hc : q.condOK = true) (qargs : List Val) (Z : List CM)
+    (hnd : Z.Nodup)
+    (hcov : ∀ t, some t ∈ supp (q.simD pd P qargs) → ∃ z ∈ Z, t.choices = some z)
+    (hshape : ∀ z ∈ Z, q.skel = some z.skel) :
+    sumK (Z.map fun z => pmassOf (q.assessP pd z qargs)) = 1 :=
+  elbo_qmass_sum pd P hpd hnorm q hn hc qargs Z hnd hcov hshape
+
+/-- **tight at the posterior, per draw** (connects `C17_elbo_tight` to the model): if the family's
+    mass at the drawn `z` is `p(x,z)/p(x)` - stated through the `assessP` masses - the draw's ratio is
+    `p(x)`.  Guards `p(x,z) ≠ 0`, `p(x) ≠ 0`. -/
+theorem C17_elbo_tight_at_posterior {R' : Type} (p : GF) (pargs : List Val) (q : GF)
+    (qargs : List Val) (xobs : CM) (px : K) (hpx : px ≠ 0) (t : Tr R') (z : CM)
+    (hz : t.choices = some z) (pp : K) (hj : elboJoint pd p pargs xobs z = some pp) (hpp : pp ≠ 0)
+    (hpost : pmassOf (q.assessP pd z qargs) = pp / px) :
+    elboRatio pd p pargs q qargs xobs t = some px :=
+  elbo_tight_at_posterior pd p pargs q qargs xobs px hpx t z hz pp hj hpp hpost
+
+/-- … hence EVERY draw: each trace the family can produce has ratio exactly `p(x)` when the family's
+    law on `Z` is the posterior -/
+theorem C17_elbo_tight_every_draw (p : GF) (pargs : List Val) (q : GF) (qargs : List Val)
+    (xobs : CM) (px : K) (hpx : px ≠ 0) (Z : List CM)
+    (hcov : ∀ t, some t ∈ supp (q.simD pd P qargs) → ∃ z ∈ Z, t.choices = some z)
+    (hpost : ∀ z ∈ Z, ∃ pp, elboJoint pd p pargs xobs z = some pp ∧ pp ≠ 0 ∧
+      pmassOf (q.assessP pd z qargs) = pp / px)
+    (t : Tr R) (ht : some t ∈ supp (q.simD pd P qargs)) :
+    elboRatio pd p pargs q qargs xobs t = some px :=
+  elbo_tight_every_draw pd P p pargs q qargs xobs px hpx Z hcov hpost t ht
+
+/-- **tie of the two domains**: if the masses are the exponentials of the log densities
+    (`pm = e ∘ lp`, `e 0 = 1`, `e (a + b) = e a · e b`; on a group of log weights this means strictly
+    positive masses), `e` of the log-domain objective of a coherent trace is the linear-domain ratio,
+    and one raises iff the other does. -/
+theorem C17_elbo_exp_tie (e : R → K) (he0 : e 0 = 1) (hadd : ∀ a b, e (a + b) = e a * e b)
+    (hpm : ∀ d a v, pd.pm d a v = e (P.lp d a v)) (p : GF) (pargs : List Val) (q : GF)
+    (qargs : List Val) (xobs : CM) (t : Tr R) (hcoh : q.Coh P qargs t) :
+    (elboDraw P p pargs xobs t).map e = elboRatio pd p pargs q qargs xobs t :=
+  elbo_exp pd P e he0 hadd hpm p pargs q qargs xobs t hcoh
+
+end C17Elbo
+
+/-- **below the log evidence in expectation** for a family given by `simD` on a finite program
+    (derived from `C17_elbo_le_evidence` over the finite set `Z`):
+    `E_q[log (p(x,z)/q(z))] ≤ log Σ_{z∈Z} p(x,z)`, real logarithm.  Guards: joint defined and
+    positive, family mass positive on `Z`; the family never raises. -/
+theorem C17_elbo_le_log_evidence {R : Type} [AddCommGroup R] (pd : PD ℝ) (P : Prims R)
+    (hpd : pd.WF) (hnorm : pd.Normalised) (p : GF) (pargs : List Val) (q : GF)
+    (hn : q.noCollide = true) (hc : q.condOK = true) (qargs : List Val) (xobs : CM) (Z : List CM)
+    (hnd : Z.Nodup)
+    (hcov : ∀ t, some t ∈ supp (q.simD pd P qargs) → ∃ z ∈ Z, t.choices = some z)
+    (hshape : ∀ z ∈ Z, q.skel = some z.skel)
+    (hJ : ∀ z ∈ Z, ∃ pp, elboJoint pd p pargs xobs z = some pp ∧ 0 < pp)
+    (hQ : ∀ z ∈ Z, 0 < pmassOf (q.assessP pd z qargs)) :
+    E (q.simD pd P qargs) (optK fun t => (elboRatio pd p pargs q qargs xobs t).elim 0 Real.log)
+      ≤ Real.log (sumK (Z.map fun z => (elboJoint pd p pargs xobs z).getD 0)) :=
+  elbo_le_log_evidence pd P hpd hnorm p pargs q hn hc qargs xobs Z hnd hcov hshape hJ hQ
+
+/-! ### non-vacuity (exact rationals, primitives `lawExPD`: a coin with parameter, a three-valued one) -/
+
+/-- `C17_elbo_unbiased` on target `b ~ coin(1/2); z ~ three; y ~ coin(1/8 + b/2 + z/8)`, `y = 1`
+    observed, family `b ~ coin(1/3); z ~ three`: every hypothesis, both sides computed (`11/24`), and
+    the same number is the expected importance weight of `target.generate(constraint)` (C02): the
+    right-hand side IS the evidence. -/
+example : lawExPD.WF ∧ lawExPD.Normalised ∧ elboExQ.noCollide = true ∧ elboExQ.condOK = true ∧
+    elboExZ.Nodup ∧
+    (∀ t, some t ∈ supp (elboExQ.simD lawExPD lawExP [.num (1/3)]) →
+      ∃ z ∈ elboExZ, t.choices = some z) ∧
+    (∀ z ∈ elboExZ, elboExQ.skel = some z.skel) ∧
+    (∀ z ∈ elboExZ, pmassOf (elboExQ.assessP lawExPD z [.num (1/3)]) = 0 →
+      (elboJoint lawExPD elboExP [] elboExObs z).getD 0 = 0) ∧
+    E (elboExQ.simD lawExPD lawExP [.num (1/3)])
+      (optK fun t => (elboRatio lawExPD elboExP [] elboExQ [.num (1/3)] elboExObs t).getD 0)
+      = 11/24 ∧
+    sumK (elboExZ.map fun z => (elboJoint lawExPD elboExP [] elboExObs z).getD 0) = 11/24 ∧
+    E (elboExP.generateD lawExPD lawExP Cfg.asis (some elboExObs) []) (optK fun tw => tw.2)
+      = 11/24 := by
+  refine ⟨lawExPD_wf, lawExPD_normalised, by decide +kernel, by decide +kernel, by decide +kernel,
+    covers_of_coversB _ _ (by decide +kernel), by decide +kernel, by decide +kernel,
+    by decide +kernel, by decide +kernel, by decide +kernel⟩
+
+/-- the guards of `C17_elbo_expect_log` on the same instance (all six joints and masses non-zero),
+    and one draw's ratio: `z = (b=0, z=2)` has `p(x,z) = 1/2·1/6·3/8`, `q(z) = 2/3·1/6` -/
+example : (∀ z ∈ elboExZ, ∃ pp, elboJoint lawExPD elboExP [] elboExObs z = some pp ∧ pp ≠ 0) ∧
+    (∀ z ∈ elboExZ, ∃ qq r, elboExQ.assessP lawExPD z [.num (1/3)] = some (qq, r) ∧ qq ≠ 0) ∧
+    elboRatioZ lawExPD elboExP [] elboExQ [.num (1/3)] elboExObs (elboExZ1 0 2) = some (9/32) := by
+  have h : ∀ z ∈ elboExZ, ∃ qr, elboExQ.assessP lawExPD z [.num (1/3)] = some qr ∧ qr.1 ≠ 0 := by
+    decide +kernel
+  exact ⟨by decide +kernel, fun z hz => by
+    obtain ⟨⟨qq, r⟩, h1, h2⟩ := h z hz
+    exact ⟨qq, r, h1, h2⟩, by decide +kernel⟩
+
+/-- `C17_elbo_tight_every_draw`: target `b ~ coin(1/2); y ~ coin(1/4 + b/2)`, `y = 1`; the family
+    `b ~ coin(3/4)` is the exact posterior, `p(x) = 1/2`: hypotheses, and both draws' ratios -/
+example : (∀ t, some t ∈ supp (tightExQ.simD lawExPD lawExP [.num (3/4)]) →
+      ∃ z ∈ tightExZ, t.choices = some z) ∧
+    (∀ z ∈ tightExZ, ∃ pp, elboJoint lawExPD tightExP [] elboExObs z = some pp ∧ pp ≠ 0 ∧
+      pmassOf (tightExQ.assessP lawExPD z [.num (3/4)]) = pp / (1/2)) ∧
+    (∀ z ∈ tightExZ, elboRatioZ lawExPD tightExP [] tightExQ [.num (3/4)] elboExObs z
+      = some (1/2)) ∧
+    -- … and off the posterior (theta = 1/3) the draws differ: 3/16 and 9/8
+    elboRatioZ lawExPD tightExP [] tightExQ [.num (1/3)] elboExObs
+      (.node (.cons "b" (.leaf (.num 0)) .nil)) = some (3/16) ∧
+    elboRatioZ lawExPD tightExP [] tightExQ [.num (1/3)] elboExObs
+      (.node (.cons "b" (.leaf (.num 1)) .nil)) = some (9/8) := by
+  refine ⟨covers_of_coversB _ _ (by decide +kernel), by decide +kernel, by decide +kernel,
+    by decide +kernel, by decide +kernel⟩
+
+/-- shared address (the family `sharedExQ` also proposes `y ~ coin(1/4)`): the family's `y` replaces
+    the observation in the merged map, so the draw `(b=0, y=0)` is scored at `y = 0`:
+    `p = 1/2·3/4`, `q = 2/3·3/4`, ratio `3/4` -/
+example : elboRatioZ lawExPD tightExP [] sharedExQ [.num (1/3)] elboExObs
+      (.node (.cons "b" (.leaf (.num 0)) (.cons "y" (.leaf (.num 0)) .nil))) = some (3/4) := by
+  decide +kernel
+
+/-- `C17_elbo_le_log_evidence`: its hypotheses on a coin over ℝ (`realCoin`), target
+    `b ~ coin(1/2); y ~ coin(1/4 + b/2)`, family `b ~ coin(1/3)` -/
+example : realCoin.WF ∧ realCoin.Normalised ∧
+    (tightExQ.noCollide = true ∧ tightExQ.condOK = true ∧ tightExZ.Nodup) ∧
+    (∀ t, some t ∈ supp (tightExQ.simD realCoin lawExP [.num (1/3)]) →
+      ∃ z ∈ tightExZ, t.choices = some z) ∧
+    (∀ z ∈ tightExZ, tightExQ.skel = some z.skel) ∧
+    (∀ z ∈ tightExZ, ∃ pp, elboJoint realCoin tightExP [] elboExObs z = some pp ∧ 0 < pp) ∧
+    (∀ z ∈ tightExZ, 0 < pmassOf (tightExQ.assessP realCoin z [.num (1/3)])) :=
+  ⟨realCoin_wf, realCoin_normalised, realCoin_instance⟩
+
+/-- `C17_elbo_exp_tie`: integer log weights base 2 (`e n = 2^n`), masses `2^lp` -/
+example : ∃ (e : ℤ → ℚ) (pd : PD ℚ), e 0 = 1 ∧ (∀ a b, e (a + b) = e a * e b) ∧
+    (∀ d a v, pd.pm d a v = e (lawExP.lp d a v)) :=
+  ⟨fun n => (2 : ℚ) ^ n, ⟨fun _ _ => [], fun d a v => (2 : ℚ) ^ (lawExP.lp d a v)⟩, by simp,
+    fun a b => zpow_add₀ (by norm_num) a b, fun _ _ _ => rfl⟩
 
 end Genjax.Vi
